@@ -5,6 +5,7 @@ import Resvg.Props.C03
 import Resvg.Props.C04
 import Resvg.Props.C05
 import Resvg.Props.C07
+import Resvg.Props.C08
 import Resvg.Props.C09
 import Resvg.Props.C10
 import Resvg.Props.C11
